@@ -202,6 +202,59 @@ fn enumerate_zero_fee(len: usize, stride: usize, offset: usize) -> impl Fn() {
     }
 }
 
+/// two registered vAMMs: a liquidation on vAMM 0 must not restrict a trader acting twice on
+/// vAMM 1 in that block, and must restrict a second action on vAMM 0; `which` = the vAMM of the
+/// two actions by bob
+fn two_vamms(which: usize, partial: bool) -> impl Fn() {
+    move || {
+        let mut cfg = Cfg::base(false, 9);
+        let d = cfg.d();
+        cfg.n_vamms = 2;
+        cfg.init_ratio = Uint128::new(d / 10);
+        if partial {
+            cfg.partial_ratio = Uint128::new(d / 4);
+            cfg.liq_fee = Uint128::new(d / 100);
+        }
+        let mut r = Run::new(cfg, Mon::none());
+        symrt::set_full(false);
+        let l = Uint128::new(10 * d);
+        assert!(r.step(Op::Open { who: ALICE, side: Side::Buy, margin: Uint128::new(25 * d), lev: l, limit: Uint128::zero(), funds: None }).tx.ok);
+        r.w.next_block(15);
+        let units = if partial { 5 } else { 45 };
+        assert!(r.step(Op::Open { who: CAROL, side: Side::Sell, margin: Uint128::new(units * d), lev: l, limit: Uint128::zero(), funds: None }).tx.ok);
+        r.w.next_block(1000);
+        // the liquidation block: bob acts on `which`, alice is liquidated on vAMM 0, bob acts again
+        let two = Uint128::new(2 * d);
+        r.vi = which;
+        assert!(r.step(Op::Open { who: BOB, side: Side::Sell, margin: Uint128::new(4 * d), lev: two, limit: Uint128::zero(), funds: None }).tx.ok);
+        r.vi = 0;
+        let t = r.step(Op::Liquidate { by: LIQ, trader: ALICE, limit: Uint128::zero() });
+        if !t.tx.ok {
+            symrt::log_event(format!("liquidation failed: {}", crate::sx::norm(&t.tx.err)));
+            return;
+        }
+        symrt::set_full(true);
+        r.vi = which;
+        let m = amount("amt", d, false, 3);
+        let dump0 = r.w.dump();
+        let t = r.step(Op::Open { who: BOB, side: Side::Sell, margin: m, lev: two, limit: Uint128::zero(), funds: None });
+        let what = format!("liquidation on vAMM 0, bob's two actions on vAMM {} in that block", which);
+        if which == 0 {
+            prove_d("C16/second-action-in-liquidation-block-rejected", Cond::from_bool(!t.tx.ok), what.clone());
+            mon::dump_unchanged("C16/rejected-second-action-changes-no-storage", &dump0, &r.w.dump(), &what);
+        } else {
+            prove_d("C16/untouched-traders-and-later-blocks-not-restricted", Cond::from_bool(t.tx.ok || !t.tx.err.contains("Only one action allowed")), format!("{} err={}", what, crate::sx::norm(&t.tx.err)));
+        }
+        let t = r.step(Op::Close { who: BOB, limit: Uint128::zero() });
+        if which == 0 {
+            prove_d("C16/second-action-in-liquidation-block-rejected", Cond::from_bool(!t.tx.ok), format!("{} (close)", what));
+        } else {
+            prove_d("C16/untouched-traders-and-later-blocks-not-restricted", Cond::from_bool(t.tx.ok || !t.tx.err.contains("Only one action allowed")), format!("{} (close) err={}", what, crate::sx::norm(&t.tx.err)));
+        }
+        r.vi = 0;
+    }
+}
+
 pub fn scenarios(seed: u64) -> Vec<Scenario> {
     let mut v = vec![];
     let de = "staged liquidatable position; all event sequences over {open by bob/liquidator(long,short)/bystander/alice, close by bob/liquidator, liquidate alice, next block} containing a liquidation; concrete amounts (pure enumeration of orderings and block boundaries)";
@@ -215,6 +268,11 @@ pub fn scenarios(seed: u64) -> Vec<Scenario> {
     }
     v.push(sc("C16", Tier::Quick, "c16.enum.len3.partial-zero-fee", de, 5, 150, enumerate_zero_fee(3, 1, 0)));
     v.push(sc("C16", Tier::Thorough, "c16.enum.len4.sample.partial-zero-fee", de, 5, 300, enumerate_zero_fee(4, 23, (seed as usize) % 23)));
+    for which in 0..2usize {
+        for partial in [false, true] {
+            v.push(sc("C16", Tier::Quick, &format!("c16.two-vamms.actions-on-vamm{}.{}", which, if partial { "partial" } else { "full" }), "two registered vAMMs: a liquidation on vAMM 0; a trader acting twice in that block is restricted on vAMM 0 only", 200, 90, two_vamms(which, partial)));
+        }
+    }
     let dd = "dedicated orderings with the last trade's amount (and, for partial liquidations, the liquidation fee down to zero) symbolic";
     use Ev::*;
     let ded: Vec<(&str, Vec<Ev>)> = vec![
